@@ -31,9 +31,19 @@ impl ToTokens for FromDeriveInputImpl<'_> {
 
         if let Data::Struct(ref data) = self.base.data {
             if data.is_newtype() {
+                // The declared shapes are the wrapper's own; the inner type's verdict does not replace them.
+                let supports = self.supports.map(|i| {
+                    quote! {
+                        #i
+                        __validate_body(&#input.data)?;
+                    }
+                });
+
                 self.wrap(
                     quote!{
                         fn from_derive_input(#input: &::darling::export::syn::DeriveInput) -> ::darling::Result<Self> {
+                            #supports
+
                             ::darling::export::Ok(
                                 #ty_ident(::darling::FromDeriveInput::from_derive_input(#input)?)
                             ) #post_transform
